@@ -22,7 +22,7 @@ RULE = ("one evaluation = one seeded history (<= 40 operations) on a long-lived 
         "succeeds; emodulus is in addition compared with a direct call of features.emodulus.get_emodulus with inputs chosen by "
         "an independent precedence table. non-trivial = >=1 edit and >=1 read; distinct = distinct event-log digests")
 STATE_MEASURE = "distinct (feature, present emodulus keys, temp feature present, cached before?, last edited key) tuples"
-PROBES = ["read_cached_then_config_changed", "key_deleted_after_read", "emodulus_case_A", "emodulus_case_B", "emodulus_case_C",
+PROBES = ["read_again_after_refused_computation", "temp_feature_earlier_values_assigned_again", "read_cached_then_config_changed", "key_deleted_after_read", "emodulus_case_A", "emodulus_case_B", "emodulus_case_C",
           "viscosity_changed_while_temperature_present", "temp_feature_replaced", "plugin_read", "unavailable_read_raises",
           "child_after_refresh", "file_backed", "scenario_switch", "ml_score_replaced", "temperature_zero", "grandchild_backing",
           "temp_feature_tail_changed", "temp_set_through_child", "child_read_without_explicit_refresh",
@@ -159,6 +159,9 @@ class World:
     def gen_op(self, r):
         # read-edit-read patterns are what exposes a stale cache: after an edit, usually read a feature
         # that depends on what was edited
+        plan_ = getattr(self, "plan_ops", [])
+        if plan_:
+            return plan_.pop(0)
         pend = getattr(self, "pending_reads", [])
         if pend:
             return {"k": "read", "feat": pend.pop(0)}
@@ -170,6 +173,14 @@ class World:
                 self.pending_reads = list(dict.fromkeys(rel))[1:]
                 return {"k": "read", "feat": list(dict.fromkeys(rel))[0]}
             return {"k": "read", "feat": r.choice(rel)}
+        th = getattr(self, "temp_hist", {})
+        tback = sorted(n_ for n_, v_ in th.items() if len(v_) >= 2 and v_[-1][0] != v_[-2][0])
+        if tback and self.child is not None and r.random() < 0.5:
+            # exactly the values that a temporary feature had before its last replacement are assigned again, through another level
+            name = r.choice(tback)
+            ds_, via_ = th[name][-2]
+            return {"k": "temp", "dseed": ds_, "name": name, "exact": True, "bad": False,
+                    "via": r.choice([v for v in ("base", "child", "mid") if v != th[name][-1][1]])}
         hist = getattr(self, "set_hist", {})
         back = sorted(k_ for k_, v_ in hist.items() if len(v_) >= 2 and v_[-1] != v_[-2])
         if back and r.random() < 0.08:
@@ -223,6 +234,17 @@ class World:
             return {"k": "del", "sec": sec, "key": key}
         if x < 0.52:
             names = ["tmp_c06", "tmp_c06"] + ([] if self.k.get("ml_innate", True) else ["ml_score_abc", "ml_score_xyz", "ml_score_abc"])
+            if self.child is not None and r.random() < 0.3:
+                # values A through one handle of the hierarchy, read, values B through another handle, values A again through the
+                # first one (no refresh by the caller in between), read
+                nm, da, db = r.choice(names), r.randrange(1 << 30), r.randrange(1 << 30)
+                h1, h2 = r.choice([("child", "base"), ("child", "base"), ("base", "child"), ("child", "mid"), ("mid", "child")])
+                rd_ = r.choice([nm, nm, "ml_class" if nm.startswith("ml_score") else "c06_b"])
+                self.plan_ops = [{"k": "read", "feat": rd_},
+                                 {"k": "temp", "dseed": db, "name": nm, "via": h2, "exact": True, "bad": False},
+                                 {"k": "temp", "dseed": da, "name": nm, "via": h1, "exact": True, "bad": False},
+                                 {"k": "read", "feat": rd_}]
+                return {"k": "temp", "dseed": da, "name": nm, "via": h1, "exact": True, "bad": False}
             return {"k": "temp", "dseed": r.randrange(1 << 30), "name": r.choice(names), "via": r.choice(["base", "base", "child", "child", "mid"]),
                     "bad": r.random() < 0.15}
         if x < 0.60 and self.child is not None:
@@ -246,9 +268,9 @@ class World:
         if "pixel size" in what:
             return ["area_um", "emodulus", "volume", "c06_a", "c06_a"]
         if what.startswith("temp ml_score"):
-            return ["ml_class"]
+            return ["ml_class", what.split(" ", 1)[1]]
         if what.startswith("temp"):
-            return ["c06_b", "c06_a"]
+            return ["c06_b", "c06_a", "tmp_c06"]
         return ["emodulus"]
 
     def mark_edit(self, what):
@@ -332,7 +354,15 @@ class World:
                 # input the plugin recipe refuses (its computation raises ValueError) until the values are replaced again
                 vals[op["dseed"] % self.n] = -1.0
                 ctx.probe("temp_input_the_recipe_refuses")
-            if name in self.temps and (op["dseed"] % 3 == 0 or op.get("tail")) and self.n > 4:
+            if not hasattr(self, "temp_hist"):
+                self.temp_hist = {}
+            if op.get("exact"):
+                ctx.probe("temp_feature_earlier_values_assigned_again")
+            else:
+                self.temp_hist.setdefault(name, []).append((op["dseed"], op.get("via", "base") if self.child is not None else "base"))
+                if op.get("bad") or (name in self.temps and (op["dseed"] % 3 == 0 or op.get("tail")) and self.n > 4):
+                    self.temp_hist[name] = []      # (values not reproducible from the data seed alone)
+            if not op.get("exact") and name in self.temps and (op["dseed"] % 3 == 0 or op.get("tail")) and self.n > 4:
                 # only the last few events change (a block-wise identifier must still see it)
                 keep = self.temps[name].copy()
                 k_tail = 1 + op["dseed"] % min(100, self.n // 2)
@@ -484,6 +514,13 @@ class World:
                                                  f"(the recipe refuses negative tmp_c06)", sig=sig)
             self.read_before.add(feat)
             ctx.log("r", f"read {feat}", "refused")
+            if not getattr(self, "reread_after_refusal", False):
+                # the caller asks again at once (nothing was changed in between)
+                self.reread_after_refusal = True
+                self.pending_reads = [feat] + list(getattr(self, "pending_reads", []))
+            else:
+                self.reread_after_refusal = False
+                ctx.probe("read_again_after_refused_computation")
             return
         if ok != avail:
             ctx.violation("C06.availability.read", f"'{feat} in ds' is {avail} but reading {'succeeds' if ok else 'raises KeyError'} "
